@@ -48,6 +48,9 @@ FIXES = [
  ('C04','(never truncate) is honoured in side-by-side mode too','wrapping.rs: with side-by-side and wrapping, `--max-line-length 0` (documented: never truncate) was replaced by a computed finite limit (max(0, computed)), so long pass-through and hunk lines were cut although the user asked for no truncation'),
  ('C08','only treated as a line ending when nothing but escape sequences follows','delta.rs: a carriage return inside a line followed only by zero-width text (combining characters) was removed from uncoloured input (the rest had display width 0) but kept when git had coloured the same line, so coloured and plain input rendered differently (also C04: a byte of passed-through text dropped)'),
  ('C14',"in output of standalone diff is not dropped when it follows another file","diff_header_misc.rs: in `diff -r` output a `Binary files a/y and b/y differ` line that follows another file's section was swallowed (the previous file's names got the `(binary file)` annotation, no header was written): the binary file was not reported at all"),
+ ('C10','the names shown for a merge conflict are those of that conflict','merge_conflict.rs: the ancestor/theirs commit names of an earlier (diff3-style) merge conflict were kept, so a later conflict without ancestor section - also in another file - was labelled `ancestor ⟶ HEAD`: a file section rendered differently depending on what preceded it'),
+ ('C14','a hunk that starts with a merge conflict gets its hunk header','merge_conflict.rs: when the first line of a hunk of a combined diff was `++<<<<<<<`, the hunk header was never written and the syntax highlighter not set up for the hunk (conflict lines painted with the previous hunk\'s / file\'s highlighter state; also C10, C15)'),
+ ('C19','hyperlinks in diffstat lines under --relative-paths point at the file','diff_stat.rs: under --relative-paths with GIT_PREFIX the link of a diffstat line joined the repository-relative path to the user\'s directory: `sub/a.rs` seen from sub/ linked to <root>/sub/sub/a.rs'),
 ]
 out = []
 for prop, pat, what in FIXES:
